@@ -969,3 +969,35 @@ def root_local(f, op):
             return l
         op = ds[0]["rv"]["a"]
     return None
+
+
+DROPPING_ADAPTERS = re.compile(r"\b(TakeWhile|Take|Skip|SkipWhile|Filter|FilterMap|StepBy|MapWhile|Scan|Flatten|FlatMap|Peekable)\b")
+
+
+def loop_iterator_type(f, head):
+    """Type of the iterator whose `next` call at `head` drives a loop (the local behind the `&mut` argument)."""
+    t = P.term_at(f, head)
+    if not t["args"] or not t["args"][0].get("pl"):
+        return "?"
+    base = ref_base(f, t["args"][0])
+    return f.locals[base] if base is not None else f.locals[t["args"][0]["pl"]["l"]]
+
+
+def loop_source_subslice(f, head):
+    """The call (if any) that narrows the collection a loop iterates to a sub-slice (`v[a..b].iter()`, `split_at`, `get(a..b)`)."""
+    t = P.term_at(f, head)
+    base = ref_base(f, t["args"][0]) if t["args"] and t["args"][0].get("pl") else None
+    if base is None:
+        return None
+    for q in P.origins(f, {"k": "copy", "pl": {"l": base, "p": []}}):
+        if q["k"] != "call":
+            continue
+        ck = q["callee"]
+        dty = f.locals[q["t"]["dest"]["l"]] if not q["t"]["dest"]["p"] else ""
+        m = re.match(r"^&(?:mut )?\[(.*)\]$", dty)
+        # only a slice of the iterated element type narrows this loop (an enclosing `levels[1..]` does not)
+        if re.search(r"index::index(_mut)?$|Index(Mut)?>::index(_mut)?$|::get(_mut)?$", ck) and m and m.group(1) in f.locals[base]:
+            return ck
+        if re.search(r"::(split_at|split_at_mut|split_first|split_last|split_off|drain)$", ck):
+            return ck
+    return None
